@@ -58,7 +58,7 @@ class HprSpec(Spec):
         self.n = cfg["buffers"]
         self.mon = L.HprMonitor(self, self.n)
         self.max_depth = cfg["depth"]
-        self.time_budget = 200 if tier == "quick" else 840      # safety net only; the bounds are the depth bounds
+        self.time_budget = 400 if tier == "quick" else 840      # safety net only; the bounds are the depth bounds
         self.max_states = 600_000 if tier == "quick" else 6_000_000
         rich = cfg["rich"]
         hp = []
